@@ -1018,6 +1018,32 @@ func ruleAgree(c *Ctx) {
 			splitFn = h
 		}
 	}
+	// ... or an index helper: handed len(salt), it returns where the mark starts (saltLen - K); the callers cut salt[:e] / salt[e:]
+	indexMode := false
+	if splitFn == nil {
+		for _, h := range greg.Fns {
+			if !ireg.In[h] || h == get || h == is || h == tagFn || h.Signature.Results().Len() == 0 || h.Signature.Results().At(0).Type().String() != "int" {
+				continue
+			}
+			okIdx := false
+			for _, r := range eng.Returns(h) {
+				if bo, isB := p.Resolve(r.Results[0]).(*ssa.BinOp); isB && bo.Op == token.SUB {
+					if pa, isP := bo.X.(*ssa.Parameter); isP && pa.Parent() == h {
+						if k, isK := eng.ConstInt(bo.Y); isK && k > 0 {
+							okIdx = true
+						}
+					}
+				}
+			}
+			if okIdx {
+				splitFn, indexMode = h, true
+			}
+		}
+	}
+	isCutIndex := func(v ssa.Value) bool {
+		cc, idx, ok := eng.AsResult(p.Resolve(v))
+		return ok && idx == 0 && callTo(c, cc, splitFn)
+	}
 	for _, f := range []*ssa.Function{get, is} {
 		c.Check("AGREE", short(f)+":uses-shared-split-and-tag", p.Pos(f.Pos()), tagFn != nil && splitFn != nil, "GetSalt and IsServerSalt do not both go through one shared split helper and one shared tag helper: issued and recognised marks can disagree")
 	}
@@ -1033,6 +1059,23 @@ func ruleAgree(c *Ctx) {
 	loPart, hiPart := splitParts(p, splitFn)
 	isSplit := func(idx int) func(ssa.Value) bool {
 		return func(v ssa.Value) bool {
+			if indexMode {
+				// salt[:e] (idx 0) / salt[e:] (idx 1) with e the index helper's answer and salt a parameter
+				okAll, _ := p.AllFrom(v, eng.OriginOpts{ThroughConvert: true}, func(o ssa.Value) bool {
+					sl, isS := o.(*ssa.Slice)
+					if !isS {
+						return false
+					}
+					if _, isP := p.Resolve(sl.X).(*ssa.Parameter); !isP {
+						return false
+					}
+					if idx == 0 {
+						return sl.Low == nil && sl.High != nil && isCutIndex(sl.High)
+					}
+					return sl.High == nil && sl.Low != nil && isCutIndex(sl.Low)
+				})
+				return okAll
+			}
 			if os.Getenv("VERIF_DEBUG") != "" {
 				fmt.Fprintf(os.Stderr, "isSplit(%d) %s: lo=%v hi=%v origins=%s\n", idx, valStr(p, v), loPart, hiPart, valsStr(p, fsOrigins(c, v)))
 			}
@@ -1059,6 +1102,14 @@ func ruleAgree(c *Ctx) {
 		f := pair.f
 		for _, sc := range pair.reg.FindCalls(func(_ string, call *ssa.Call) bool { return callTo(c, call, splitFn) }) {
 			okS, _ := p.AllFrom(sc.Call.Args[len(sc.Call.Args)-1], deepF, func(v ssa.Value) bool { return eng.IsParam(v, f, 1) })
+			if indexMode {
+				okS = false
+				if lc, isC := p.Resolve(sc.Call.Args[len(sc.Call.Args)-1]).(*ssa.Call); isC {
+					if bi, isB := lc.Call.Value.(*ssa.Builtin); isB && bi.Name() == "len" {
+						okS, _ = p.AllFrom(lc.Call.Args[0], deepF, func(v ssa.Value) bool { return eng.IsParam(v, f, 1) })
+					}
+				}
+			}
 			c.CheckAt("AGREE", short(f)+":splits-the-given-salt", sc, okS, "the split helper is not applied to the salt passed in")
 		}
 		for _, tc := range pair.reg.FindCalls(func(_ string, call *ssa.Call) bool { return callTo(c, call, tagFn) }) {
@@ -1159,6 +1210,9 @@ func ruleAgree(c *Ctx) {
 						if bi, ok := call.Call.Value.(*ssa.Builtin); ok && bi.Name() == "len" {
 							okSp = true
 						}
+					}
+					if pa, ok := bo.X.(*ssa.Parameter); ok && indexMode && pa.Parent() == splitFn {
+						okSp = true // handed len(salt) by its callers (checked at the call sites)
 					}
 				}
 			}
